@@ -78,7 +78,10 @@ def default_nontrivial(v, code, m):
 def search_texts(ctx, n, pred, stream, kinds=None, versions=None, need_tree=True, nontrivial=default_nontrivial):
     """pred(v, code, m) -> signature or None, evaluated on the implementation"""
     vs = versions or streams.versions()
+    from harness import common as _common
     for i in range(n):
+        if _common.WD['timeouts'] >= 4:
+            break            # the implementation keeps running into the time limit: the cases reported so far carry the inputs
         r = gens.rng(ctx.seed, stream + '-v', i)
         kind, code = gens.text_case(ctx.seed, stream, i, kinds)
         v = r.choice(vs)
